@@ -54,7 +54,11 @@ func (c Case) String() string {
 		}
 		s += m.String()
 	}
-	return fmt.Sprintf("[%s] insecure=%v clientCert=%q knowsCA=%v", s, c.Insecure, c.ClientCert, c.KnowsCA)
+	u := ""
+	if c.UDP != "" {
+		u = " udp=" + c.UDP
+	}
+	return fmt.Sprintf("[%s] insecure=%v clientCert=%q knowsCA=%v%s", s, c.Insecure, c.ClientCert, c.KnowsCA, u)
 }
 
 // admits is the reference model for one upstream.
